@@ -367,6 +367,23 @@ class Inv:
                                                      'LayersData is built only from (layers, compute_parents(&layers))' if ok and lt and agg_ok and not others else
                                                      'parent table invariant not established (%s %s %s %s)' % (ok, lt, agg_ok, others))
 
+    # I13: at most 65536 layers (layer ids fit u16)
+    def I13(self):
+        fx = self.fx
+        fv = fx.body('asefile::layer::LayersData::from_vec')
+        ok = False
+        for bb, st, t in q.stmt_aggs(fv, 'asefile::layer::LayersData'):
+            for cond, vals, a in q.guards(fv, bb):
+                if cond[0] == 'bin' and cond[1] == 'Gt' and q.bool_outcome(fv, a, vals) is False:
+                    l, r_ = strip_casts(cond[2]), cond[3]
+                    c = q.const_val(r_)
+                    if l[0] == 'call' and l[1] in T.LEN and is_param(l[2][0], 1) and isinstance(c, int) and c <= 65536 \
+                            and q.arm_always_err(fv, fv.blocks[a]['term']['otherwise']):
+                        ok = True
+        ok10, _ = self.get('I10')
+        return ok and ok10, ('LayersData is built only after `layers.len() > 65536 -> Err`, so every layer id fits u16' if ok and ok10 else
+                             'layer count cap not established')
+
     # I11: a tilemap cel lives in a tilemap layer
     def I11(self):
         fx = self.fx
